@@ -154,7 +154,12 @@ def table_request(info, shape):
     nd = len(shape)
     fn = info["fn"]
     if fn == "diff" and ("prepend" in info or "append" in info):
-        return None
+        # scalar prepend / append: numpy broadcasts them to extent 1 along the axis; the model's table lists
+        # (operand, position, weight) with operands 0 = prepend, 1 = a, 2 = append
+        ax = int(info["axis"]) % nd
+        pad = [d if k != ax else 1 for k, d in enumerate(shape)]
+        return {"op": "reducetable2", "fn": "diffpad", "shape": list(shape), "n": int(info["n"]), "axis": ax,
+                "pre": pad if "prepend" in info else None, "post": pad if "append" in info else None}
     ax = info.get("axis")
     if isinstance(ax, (tuple, list)):
         ax = [int(a) % nd for a in ax]
@@ -168,6 +173,17 @@ def table_request(info, shape):
 
 def table_matches(ans, W, oshape):
     """-> None or a description of the difference between the model's table and the one numpy's function acts by"""
+    if ans.get("kind") == "table3":
+        # only the part acting on the operand itself (operand 1) is linear in it; the prepend / append parts are the affine
+        # contribution the harness adds separately
+        if list(ans["shape"]) != list(oshape):
+            return f"model output shape {ans['shape']} != numpy's {list(oshape)}"
+        mine = [{int(j): Fraction(int(w)) for o, j, w in row if int(o) == 1 and int(w) != 0} for row in ans["W"]]
+        theirs = [{int(j): coef_from_json(w) for j, w in row} for row in W]
+        if mine != theirs:
+            k = next((i for i, (x, y) in enumerate(zip(mine, theirs)) if x != y), min(len(mine), len(theirs)))
+            return f"weights on the operand differ at output position {k}: model {mine[k] if k < len(mine) else None}, numpy {theirs[k] if k < len(theirs) else None}"
+        return None
     if ans.get("kind") != "table":
         return f"the model has no table ({ans}) where numpy accepts the arguments"
     if list(ans["shape"]) != list(oshape):
@@ -262,6 +278,18 @@ def run_prod(ctx, rng, n, monitor):
         kd = bool(rng.integers(2))
         spell = gen.choice(rng, ["numpoly", "numpy", "method"])
         groups, oshape = prod_groups(sh, ax, kd)
+        if isinstance(ax, tuple) and len(set(a % len(sh) for a in ax)) == len(ax):
+            # numpy's own semantics for an axis tuple (reduced axes removed unless keepdims), as modelled in
+            # Np.ReduceFns2.prodAxesG - the implementation deviates here (known finding D22), the model must not
+            import numpy as _np
+            mt = run_driver([{"id": 0, "op": "reducetable2", "fn": "prodaxes", "shape": list(sh), "axes": [a % len(sh) for a in ax], "keepdims": kd}])[0]
+            idx = _np.arange(int(_np.prod(sh))).reshape(sh)
+            want_shape = list(_np.prod(_np.ones(sh), axis=tuple(ax), keepdims=kd).shape)
+            moved = _np.moveaxis(idx, [a % len(sh) for a in ax], list(range(len(ax))))
+            groups_np = sorted(tuple(sorted(int(v) for v in col)) for col in moved.reshape(int(_np.prod(moved.shape[:len(ax)])), -1).T)
+            ctx.count("model-table")
+            if mt.get("kind") != "groups" or list(mt["shape"]) != want_shape or sorted(tuple(g) for g in mt["groups"]) != groups_np:
+                raise RuntimeError(f"Np.ReduceFns2.prodAxesG and numpy disagree for shape {sh} axes {ax} keepdims {kd}: {str(mt)[:200]} vs {want_shape} {groups_np[:3]}")
         if isinstance(ax, int):
             # the model's own product groups (Np.ReduceFns.prodAxisGroups) against the ones derived with numpy
             mt = run_driver([{"id": 0, "op": "prodtable", "shape": list(sh), "axis": ax % len(sh), "keepdims": kd}])[0]
